@@ -45,3 +45,10 @@ def scratch_dir(tag="lmm"):
     import tempfile
     base = "/dev/shm" if os.path.isdir("/dev/shm") and os.access("/dev/shm", os.W_OK) else None
     return tempfile.mkdtemp(prefix=f"verif-{tag}-", dir=base)
+
+# BaseMatcher.best_last_matches prints a progress line; shadow print inside that module as well.
+try:
+    import leuvenmapmatching.matcher.base as _mb  # noqa: E402
+    _mb.print = lambda *a, **k: None
+except Exception:  # pragma: no cover
+    _mb = None
